@@ -24,6 +24,9 @@
 (*         DiagEnd   prints <<"DIAGNOSIS", json>>: the minimal candidate   *)
 (*                   relabellings under which the model IS consistent, on  *)
 (*                   every parameter set tried - i.e. which label is wrong *)
+(*                   - and, when there is none, the relabellings under     *)
+(*                   which I - bkg is at least homogeneous, with its       *)
+(*                   degree (the property demands degree 3)                *)
 (***************************************************************************)
 EXTENDS TraceBase, SequencesExt
 \* the design-level constants are irrelevant here
@@ -33,7 +36,9 @@ INSTANCE Units WITH NPar <- 1, Depth <- 0, Mislabel <- FALSE,
 VARIABLES l, st
 tvars == <<l, st>>
 
-St0 == [model |-> "", seen |-> {}, deadAll |-> {}, deadI |-> {}]
+St0 == [model |-> "", seen |-> {}, deadAll |-> {}, deadI |-> {}, deadReff |-> {}, deadVol |-> {}]
+\* length degrees of I - bkg tried by the diagnosis
+Degs == 0..6
 
 \* ---------------------------------------------------------------- q handling (1-D: q, 2-D: qx, qy)
 RescaledQ(qs, lam) == [k \in DOMAIN qs |-> FVecDiv(qs[k], lam)]
@@ -54,8 +59,16 @@ Doubles(t) == {<< <<t.rows[x[1]].name, x[2]>>, <<t.rows[x[3]].name, x[4]>> >> : 
                         /\ y[1] < y[3]
                         /\ y[2] \in AltExps(t.rows[y[1]])
                         /\ y[4] \in AltExps(t.rows[y[3]])}}
-\* pairs only for models with few scalable parameters (the cost is quadratic)
-Cands(t) == IF Cardinality(Scalable(t)) <= 8 THEN Singles(t) \cup Doubles(t) ELSE Singles(t)
+\* pairs only for models with few scalable parameters (the cost is quadratic); the empty
+\* relabelling (labels as declared) is a candidate for the degree test
+Cands(t) == {<<>>} \cup (IF Cardinality(Scalable(t)) <= 8 THEN Singles(t) \cup Doubles(t) ELSE Singles(t))
+\* membership without building the set
+RowIdx(t, name) == CHOOSE i \in 1..Len(t.rows) : t.rows[i].name = name
+IsCand(t, ov) ==
+    /\ Len(ov) \in (IF Cardinality(Scalable(t)) <= 8 THEN {0, 1, 2} ELSE {0, 1})
+    /\ \A k \in 1..Len(ov) : \E i \in Scalable(t) : /\ t.rows[i].name = ov[k][1]
+                                                    /\ ov[k][2] \in AltExps(t.rows[i])
+    /\ Len(ov) = 2 => RowIdx(t, ov[1][1]) < RowIdx(t, ov[2][1])
 Minimal(S) == {c \in S : \A d \in S : Len(d) >= Len(c)}
 
 \* ---------------------------------------------------------------- pass 0
@@ -123,19 +136,33 @@ DoDiagPair(s0, e) ==
     LET s == IF s0.model = e.model THEN s0 ELSE [St0 EXCEPT !.model = e.model]
         p == Protocol(e)
     IN  IF p # <<>> THEN [st |-> s, bad |-> <<p>>, say |-> <<>>]
-        ELSE IF e.ov \notin Cands(e.table) \/ e.lam # "2.0" \/ e.mu # "1.0"
+        ELSE IF ~IsCand(e.table, e.ov) \/ e.lam # "2.0" \/ e.mu # "1.0"
         THEN [st |-> s, bad |-> << <<"candidate-not-in-spec", ToString(e.ov)>> >>, say |-> <<>>]
-        ELSE LET h == IF e.scaled.res.raised THEN [I |-> FALSE, reff |-> FALSE, vol |-> FALSE]
-                      ELSE Holds(e)
+        ELSE LET ok == ~e.scaled.res.raised
+                 h == IF ok THEN Holds(e) ELSE [I |-> FALSE, reff |-> FALSE, vol |-> FALSE]
+                 b == e.base.res  sc == e.scaled.res
+                 badDegs == {d \in Degs : ~(ok /\ LawIWith(b.I, sc.I, e.base.pars.background,
+                                                           IFactorD(e.lam, e.mu, d)))}
              IN [st |-> [s EXCEPT !.seen = @ \cup {e.ov},
                                   !.deadAll = IF h.I /\ h.reff /\ h.vol THEN @ ELSE @ \cup {e.ov},
-                                  !.deadI = IF h.I THEN @ ELSE @ \cup {e.ov}],
+                                  !.deadI = @ \cup {<<e.ov, d>> : d \in badDegs},
+                                  !.deadReff = IF h.reff THEN @ ELSE @ \cup {e.ov},
+                                  !.deadVol = IF h.vol THEN @ ELSE @ \cup {e.ov}],
                  bad |-> <<>>, say |-> <<>>]
 DoDiagEnd(s, e) ==
+    LET aliveI(d) == {ov \in s.seen : <<ov, d>> \notin s.deadI}
+        other == {x \in s.seen \X (Degs \ {3}) : <<x[1], x[2]>> \notin s.deadI}
+        minOther == {x \in other : \A y \in other : Len(y[1]) >= Len(x[1])}
+        minI == Minimal(aliveI(3) \ {<<>>})
+        shown == IF aliveI(3) # {} THEN minI ELSE {x[1] : x \in minOther}
+    IN
     [st |-> St0, bad |-> IF s.model = e.model \/ s.model = "" THEN <<>> ELSE << <<"diag-order", s.model>> >>,
      say |-> << <<"DIAGNOSIS", ToJson([model |-> e.model, tried |-> Cardinality(s.seen),
-                                        all |-> SetToSeq(Minimal(s.seen \ s.deadAll)),
-                                        intensity |-> SetToSeq(Minimal(s.seen \ s.deadI))])>> >>]
+                                        all |-> SetToSeq(Minimal((s.seen \ s.deadAll) \ {<<>>})),
+                                        intensity |-> SetToSeq(minI),
+                                        reff_fails_under |-> SetToSeq(shown \cap s.deadReff),
+                                        volume_fails_under |-> SetToSeq(shown \cap s.deadVol),
+                                        other_degree |-> IF aliveI(3) # {} THEN <<>> ELSE SetToSeq(minOther)])>> >>]
 
 Step(s, e) ==
     CASE e.ev = "Table"    -> DoTable(e)
@@ -146,11 +173,14 @@ Step(s, e) ==
       [] e.ev = "DiagEnd"  -> DoDiagEnd(s, e)
       [] OTHER -> [st |-> s, bad |-> << <<"unknown-event", e.ev>> >>, say |-> <<>>]
 
+\* TLC re-evaluates a LET body at every use inside an action; the step is therefore computed
+\* once into register 3 and read back
 TInit == l = 1 /\ st = St0 /\ TLCSet(1, 0) /\ TLCSet(2, 0)
 TNext ==
     /\ l <= NLines
+    /\ TLCSet(3, Step(st, TraceLog[l]))
     /\ LET e == TraceLog[l]
-           out == Step(st, e)
+           out == TLCGet(3)
        IN /\ \A i \in 1..Len(out.say) : PrintT(out.say[i])
           /\ \A i \in 1..Len(out.bad) :
                 PrintT(<<"REJECT", Get(e, "tid", 0), l, out.bad[i][1], out.bad[i][2]>>)
